@@ -92,6 +92,12 @@ func Shape(t reflect.Type) string {
 }
 
 // roundTrip marshals v (a value of type t, addressable) with p and decodes it again.
+// the previous Marshal result and a copy of what it held
+var (
+	heldBytes, heldSnap []byte
+	heldDesc            string
+)
+
 func roundTrip(c *core.Case, sub string, p proto, t reflect.Type, v reflect.Value, viaPointer bool) bool {
 	cls := sub + "|" + p.name
 	c.Journal(cls)
@@ -111,6 +117,14 @@ func roundTrip(c *core.Case, sub string, p proto, t reflect.Type, v reflect.Valu
 		return false
 	}
 	w["bytes_hex"] = fmt.Sprintf("%x", tr(b))
+	// a payload obtained earlier is the caller's: marshalling something else in between (this
+	// value, possibly with another protocol) leaves it as it was, and it still decodes
+	if heldBytes != nil && !bytes.Equal(heldBytes, heldSnap) {
+		c.Violation(cls+"|Marshal", "earlier-result-overwritten", fmt.Sprintf("the result of an earlier Marshal (%d bytes, %s) changed when another value was marshalled: now %x, was %x", len(heldSnap), heldDesc, tr(heldBytes), tr(heldSnap)), w)
+		heldBytes = nil
+		return false
+	}
+	heldBytes, heldSnap, heldDesc = b, append([]byte(nil), b...), p.name
 	out := reflect.New(t)
 	if sig, stk := core.Guard(func() { err = thrift.Unmarshal(p.p, b, out.Interface()) }); sig != "" {
 		c.Violation(cls+"|Unmarshal", sig, fmt.Sprintf("Unmarshal(%s) of its own output %x for %s panicked: %s", p.name, tr(b), show(v), stk), w)
@@ -522,7 +536,7 @@ func runLong(c *core.Case) {
 func init() {
 	core.Register(&core.Monitor{
 		Prop:    "C04",
-		Rule:    "generated: struct types built at run time (0-70 fields; ids consecutive, with gaps inside and beyond the delta short form, ranges beyond 64 and 128, up to 32767, declared in any order; required/optional/enum; bool, int8..int64, int, float32/64, string, []byte, pointers to scalars, nested and pointer-to structs, lists, sets (also of named zero-size element types), maps, unions; occasionally a bare list/map/scalar at the top level) x 3 values (required pointers non-nil, no nil collection elements, no NaN keys) x {binary strict, binary non-strict, compact}, by value and through a pointer: Marshal must not fail, Unmarshal of the result must not fail and must be equal (nil == empty collections, floats by == or both NaN, unions through the member pointer). library: declared types with embedded structs by value and by pointer, recursion, pointer-to-pointer fields, bools in nested/pointer/list positions, unions nested in structs/lists/pointers, ids at 64/65/128/129/32767. long-collections: lists, sets and maps with as many elements as the decoder preallocates (64 KiB worth), one less, one more, 4/3, 2x+1, 3x, 4x+1 and 9x as many; strings and binary values of those lengths around the 64 KiB read chunk, with content that differs from chunk to chunk. reuse: one Encoder and one Decoder carried through 2-6 Reset calls across protocols (strict on/off), several values per stream: bytes equal to a fresh Marshal and values equal. Differences are classified by protocol and by the shape of the first differing field.",
+		Rule:    "generated: struct types built at run time (0-70 fields; ids consecutive, with gaps inside and beyond the delta short form, ranges beyond 64 and 128, up to 32767, declared in any order; required/optional/enum; bool, int8..int64, int, float32/64, string, []byte, pointers to scalars, nested and pointer-to structs, lists, sets (also of named zero-size element types), maps, unions; occasionally a bare list/map/scalar at the top level) x 3 values (required pointers non-nil, no nil collection elements, no NaN keys) x {binary strict, binary non-strict, compact}, by value and through a pointer: Marshal must not fail and must leave the result of the previous Marshal call as it was, Unmarshal of the result must not fail and must be equal (nil == empty collections, floats by == or both NaN, unions through the member pointer). library: declared types with embedded structs by value and by pointer, recursion, pointer-to-pointer fields, bools in nested/pointer/list positions, unions nested in structs/lists/pointers, ids at 64/65/128/129/32767. long-collections: lists, sets and maps with as many elements as the decoder preallocates (64 KiB worth), one less, one more, 4/3, 2x+1, 3x, 4x+1 and 9x as many; strings and binary values of those lengths around the 64 KiB read chunk, with content that differs from chunk to chunk. reuse: one Encoder and one Decoder carried through 2-6 Reset calls across protocols (strict on/off), several values per stream: bytes equal to a fresh Marshal and values equal. Differences are classified by protocol and by the shape of the first differing field.",
 		Trusted: []string{"harness/gen/ttypes.Equal (nil == empty, == on floats, union member through its pointer)", "reflect.StructOf-built types take the same codec construction path as declared ones"},
 		Subs: []core.Sub{
 			{Name: "generated", N: core.Const(15000, 600000), Run: runGenerated},
